@@ -21,17 +21,17 @@ theorem isCompressable_iff (C : Cfg Z) (h : Hdr) :
 is not a HEAD request, the wrapped handler writes a status or a body at all, the status at that first call
 allows a body, and at that moment the header map has no Content-Encoding and a Content-Type (possibly the
 sniffed one of an implicit write) that the configured expression matches. -/
-theorem compress_iff (C : Cfg Z) (head : Bool) (req h0 : Hdr) (pool : List Z) (ops : List Op) :
-    (serve C head req h0 pool ops).compressed = true ↔
+theorem compress_iff (C : Cfg Z) (head dfl : Bool) (req h0 : Hdr) (pool : List Z) (ops : List Op) :
+    (serve C head dfl req h0 pool ops).compressed = true ↔
       acceptsGzip req = true ∧ head = false ∧
-      ∃ h c, decision C (hadd h0 hVary hAcceptEncoding) ops = some (h, c) ∧ bodyAllowedForStatus c = true ∧
+      ∃ h c, decision C false (hadd h0 hVary hAcceptEncoding) ops = some (h, c) ∧ bodyAllowedForStatus c = true ∧
         hget h hContentEncoding = "" ∧ C.typeOk (hget h hContentType) = true := by
   unfold serve
   have hcr := close_run C ops (hadd h0 hVary hAcceptEncoding) pool
   by_cases hacc : (acceptsGzip req && !head) = true
   · simp only [hacc, if_true]
     have ha : acceptsGzip req = true ∧ head = false := by simpa using hacc
-    cases hd : decision C (hadd h0 hVary hAcceptEncoding) ops with
+    cases hd : decision C false (hadd h0 hVary hAcceptEncoding) ops with
     | none =>
       have := hcr.1 hd
       simp only [this, Dec.isGzip]
@@ -57,16 +57,16 @@ theorem compress_iff (C : Cfg Z) (head : Bool) (req h0 : Hdr) (pool : List Z) (o
     exact hacc (by simp [h1, h2])
 
 /-- The same statement against the executable predicate the correspondence uses. -/
-theorem compress_iff_shouldCompress (C : Cfg Z) (head : Bool) (req h0 : Hdr) (pool : List Z) (ops : List Op) :
-    (serve C head req h0 pool ops).compressed = shouldCompress C head req h0 ops := by
-  have h := compress_iff C head req h0 pool ops
-  cases hs : (serve C head req h0 pool ops).compressed
+theorem compress_iff_shouldCompress (C : Cfg Z) (head dfl : Bool) (req h0 : Hdr) (pool : List Z) (ops : List Op) :
+    (serve C head dfl req h0 pool ops).compressed = shouldCompress C head req h0 ops := by
+  have h := compress_iff C head dfl req h0 pool ops
+  cases hs : (serve C head dfl req h0 pool ops).compressed
   · cases hsc : shouldCompress C head req h0 ops
     · rfl
     · exfalso
-      have : (serve C head req h0 pool ops).compressed = true := h.mpr (by
+      have : (serve C head dfl req h0 pool ops).compressed = true := h.mpr (by
         unfold shouldCompress at hsc
-        cases hd : decision C (hadd h0 hVary hAcceptEncoding) ops with
+        cases hd : decision C false (hadd h0 hVary hAcceptEncoding) ops with
         | none => simp [hd] at hsc
         | some hc =>
           obtain ⟨hh, c⟩ := hc
@@ -82,16 +82,16 @@ handler's first `WriteHeader`/`Write` (explicit or implicit — every chunking, 
 `c`; the outgoing header says `Content-Encoding: gzip`, has no Content-Length, and every other header line is
 the upstream's; and — given the compressor's round-trip law — the bytes on the wire decode to exactly the
 concatenation of all chunks the handler wrote. The recycled writer goes back to the pool. -/
-theorem when_compressed (C : Cfg Z) (hrt : C.comp.RoundTrip) (head : Bool) (req h0 : Hdr) (pool : List Z)
-    (ops : List Op) (hc : (serve C head req h0 pool ops).compressed = true) :
-    ∃ h c, decision C (hadd h0 hVary hAcceptEncoding) ops = some (h, c) ∧
-      (serve C head req h0 pool ops).obs.status = c ∧
-      hget (serve C head req h0 pool ops).obs.hdr hContentEncoding = encGzip ∧
-      hhasRaw (serve C head req h0 pool ops).obs.hdr hContentLength = false ∧
+theorem when_compressed (C : Cfg Z) (hrt : C.comp.RoundTrip) (head dfl : Bool) (req h0 : Hdr) (pool : List Z)
+    (ops : List Op) (hc : (serve C head dfl req h0 pool ops).compressed = true) :
+    ∃ h c, decision C false (hadd h0 hVary hAcceptEncoding) ops = some (h, c) ∧
+      (serve C head dfl req h0 pool ops).obs.status = c ∧
+      hget (serve C head dfl req h0 pool ops).obs.hdr hContentEncoding = encGzip ∧
+      hhasRaw (serve C head dfl req h0 pool ops).obs.hdr hContentLength = false ∧
       (∀ k, k ≠ hContentLength → k ≠ hContentEncoding →
-        hraw (serve C head req h0 pool ops).obs.hdr k = hraw h k) ∧
-      C.comp.decode (serve C head req h0 pool ops).obs.body = some (writesOf ops).flatten := by
-  obtain ⟨h1, h2, h, c, hd, hb, he, ht⟩ := (compress_iff C head req h0 pool ops).mp hc
+        hraw (serve C head dfl req h0 pool ops).obs.hdr k = hraw h k) ∧
+      C.comp.decode (serve C head dfl req h0 pool ops).obs.body = some (writesOf ops).flatten := by
+  obtain ⟨h1, h2, h, c, hd, hb, he, ht⟩ := (compress_iff C head dfl req h0 pool ops).mp hc
   have hcond : (bodyAllowedForStatus c && isCompressable C h) = true := by
     simp [hb, (isCompressable_iff C h).mpr ⟨he, ht⟩]
   have hcr := ((close_run C ops (hadd h0 hVary hAcceptEncoding) pool).2 h c hd).1 hcond
@@ -107,18 +107,26 @@ theorem when_compressed (C : Cfg Z) (hrt : C.comp.RoundTrip) (head : Bool) (req 
     simp [hset, hdel, canon_ContentEncoding, canon_ContentLength, hraw_hsetRaw_ne _ _ _ _ hk2,
           hraw_hdelRaw_ne _ _ _ hk1]
 
+theorem flusherOffered_engaged {head dfl : Bool} {req : Hdr} (h : (acceptsGzip req && !head) = true) :
+    flusherOffered head dfl req = false := by simp [flusherOffered, h]
+
+theorem flusherOffered_bypassed {head dfl : Bool} {req : Hdr} (h : ¬(acceptsGzip req && !head) = true) :
+    flusherOffered head dfl req = dfl := by simp [flusherOffered, h]
+
 /-- **otherwise_identical.** If the response is not compressed — whatever the reason — the client sees exactly
-what the bare handler would have produced on a header map that carries the `Vary: Accept-Encoding` line:
-same status, same header map, same bytes. -/
-theorem otherwise_identical (C : Cfg Z) (head : Bool) (req h0 : Hdr) (pool : List Z) (ops : List Op)
-    (hc : (serve C head req h0 pool ops).compressed = false) :
-    (serve C head req h0 pool ops).obs = serveBare C h0 ops := by
+what the bare handler would have produced on a header map that carries the `Vary: Accept-Encoding` line, when
+offered the same `Flusher` capability (none behind the gzip writer): same status, same header map, same bytes. -/
+theorem otherwise_identical (C : Cfg Z) (head dfl : Bool) (req h0 : Hdr) (pool : List Z) (ops : List Op)
+    (hc : (serve C head dfl req h0 pool ops).compressed = false) :
+    (serve C head dfl req h0 pool ops).obs = serveBare C (flusherOffered head dfl req) h0 ops := by
   unfold serveBare
+  simp only
   rw [bare_obs]
   by_cases hacc : (acceptsGzip req && !head) = true
   · have hcr := close_run C ops (hadd h0 hVary hAcceptEncoding) pool
+    rw [flusherOffered_engaged hacc]
     simp only [serve, hacc, if_true] at hc ⊢
-    cases hd : decision C (hadd h0 hVary hAcceptEncoding) ops with
+    cases hd : decision C false (hadd h0 hVary hAcceptEncoding) ops with
     | none => simp [hcr.1 hd, Down.obs]
     | some hcp =>
       obtain ⟨h, c⟩ := hcp
@@ -128,28 +136,30 @@ theorem otherwise_identical (C : Cfg Z) (head : Bool) (req h0 : Hdr) (pool : Lis
       · have hcond' : (bodyAllowedForStatus c && isCompressable C h) = false := by simpa using hcond
         have := ((hcr.2 h c hd).2 hcond').2.1
         simp [this, Down.obs]
-  · simp only [serve, hacc]
+  · rw [flusherOffered_bypassed hacc]
+    simp only [serve, hacc]
     simp only [Bool.false_eq_true, if_false]
     rw [bare_obs]
 
 /-- **status_preserved.** In all cases the status the client sees is the one the bare handler would have
-produced: the code of the first `WriteHeader`, or 200. -/
-theorem status_preserved (C : Cfg Z) (head : Bool) (req h0 : Hdr) (pool : List Z) (ops : List Op) :
-    (serve C head req h0 pool ops).obs.status = (serveBare C h0 ops).status := by
-  cases hc : (serve C head req h0 pool ops).compressed
-  · rw [otherwise_identical C head req h0 pool ops hc]
-  · obtain ⟨h1, h2, h, c, hd, hb, he, ht⟩ := (compress_iff C head req h0 pool ops).mp hc
+produced: the code of the first non-informational `WriteHeader`, or 200. -/
+theorem status_preserved (C : Cfg Z) (head dfl : Bool) (req h0 : Hdr) (pool : List Z) (ops : List Op) :
+    (serve C head dfl req h0 pool ops).obs.status = (serveBare C (flusherOffered head dfl req) h0 ops).status := by
+  cases hc : (serve C head dfl req h0 pool ops).compressed
+  · rw [otherwise_identical C head dfl req h0 pool ops hc]
+  · obtain ⟨h1, h2, h, c, hd, hb, he, ht⟩ := (compress_iff C head dfl req h0 pool ops).mp hc
     have hcond : (bodyAllowedForStatus c && isCompressable C h) = true := by
       simp [hb, (isCompressable_iff C h).mpr ⟨he, ht⟩]
     have hcr := ((close_run C ops (hadd h0 hVary hAcceptEncoding) pool).2 h c hd).1 hcond
     have hacc : (acceptsGzip req && !head) = true := by simp [h1, h2]
     unfold serveBare
-    rw [bare_obs, hd]
+    simp only
+    rw [bare_obs, flusherOffered_engaged hacc, hd]
     simp [serve, hacc, hcr.2.1, gzipDown, Down.obs]
 
 /-- **decided_once.** Once the writer has decided (gzip or plain) no later call — a second `WriteHeader`, a
-header change, more writes — flips the decision, and status line and outgoing header map stay as they were
-sent. -/
+header change, a flush, more writes — flips the decision, and status line and outgoing header map stay as they
+were sent. -/
 theorem decided_once (C : Cfg Z) (s : GW Z) (c : Nat) (hdec : s.dec.isUndecided = false)
     (hs : s.down.status = some c) (ops : List Op) :
     (GW.run C s ops).dec.isGzip = s.dec.isGzip ∧ (GW.run C s ops).dec.isUndecided = false ∧
@@ -159,20 +169,26 @@ theorem decided_once (C : Cfg Z) (s : GW Z) (c : Nat) (hdec : s.dec.isUndecided 
   | gzip z => rw [run_gzip C ops s z c hd hs]; simp [Dec.isGzip, Dec.isUndecided, hs]
   | plain => rw [run_plain C ops s c hd hs]; simp [Dec.isGzip, Dec.isUndecided, hs]
 
-/-- and the first `WriteHeader`/`Write` always decides. -/
-theorem writeHeader_decides (C : Cfg Z) (s : GW Z) (code : Nat) :
+/-- the first final (non-1xx) `WriteHeader`, and the first `Write`, always decide; an informational
+`WriteHeader` never does. -/
+theorem writeHeader_decides (C : Cfg Z) (s : GW Z) (code : Nat) (hfin : informational code = false) :
     (GW.writeHeader C s code).dec.isUndecided = false := by
   obtain ⟨dec, hdr, down, pool⟩ := s
   cases dec with
-  | undecided => simp only [GW.writeHeader]; split <;> rfl
-  | gzip z => rfl
-  | plain => rfl
+  | undecided => simp only [GW.writeHeader, hfin, Bool.false_eq_true, if_false]; split <;> rfl
+  | gzip z => simp [GW.writeHeader, hfin, Dec.isUndecided]
+  | plain => simp [GW.writeHeader, hfin, Dec.isUndecided]
+
+theorem informational_does_not_decide (C : Cfg Z) (s : GW Z) (code : Nat) (hinfo : informational code = true) :
+    GW.writeHeader C s code = s := by
+  obtain ⟨dec, hdr, down, pool⟩ := s
+  simp [GW.writeHeader, hinfo, down_writeHeader_info]
 
 theorem write_decides (C : Cfg Z) (s : GW Z) (b : Bytes) : (GW.write C s b).dec.isUndecided = false := by
   have h1 : (GW.decideOnWrite C s b).dec.isUndecided = false := by
     obtain ⟨dec, hdr, down, pool⟩ := s
     cases dec with
-    | undecided => exact writeHeader_decides C _ 200
+    | undecided => exact writeHeader_decides C _ 200 info200
     | gzip z => rfl
     | plain => rfl
   unfold GW.write
@@ -182,6 +198,13 @@ theorem write_decides (C : Cfg Z) (s : GW Z) (b : Bytes) : (GW.write C s b).dec.
   | undecided => cases h1
   | gzip z => rfl
   | plain => rfl
+
+/-- **flush_changes_nothing.** A `Flush` by the wrapped handler — before the first write, between chunks, after
+the last one — is a no-op on the gzip writer (it offers no `Flusher`): the whole run, hence the decision, the
+headers, the status and every byte, is that of the script without its flush calls. -/
+theorem flush_changes_nothing (C : Cfg Z) (s : GW Z) (ops : List Op) :
+    GW.step C s .fl = s ∧ GW.run C s ops = GW.run C s (dropFlush ops) :=
+  ⟨rfl, run_without_flush C ops s⟩
 
 /-- `acceptsGzip` is sound for the client's wish: it holds only if the first Accept-Encoding line has an
 element whose coding is exactly `gzip` and whose parameters do not carry a zero weight. -/
@@ -248,25 +271,33 @@ def script1 : List Op :=
    .set "Content-Type" "image/png", .w [3]]
 
 -- compressed; status of the first WriteHeader; Content-Length gone; three chunks decode to their concatenation
-example : (serve toyCfg false reqGzip [] [] script1).compressed = true := by decide
-example : (serve toyCfg false reqGzip [] [] script1).obs =
+example : (serve toyCfg false true reqGzip [] [] script1).compressed = true := by decide
+example : (serve toyCfg false true reqGzip [] [] script1).obs =
     { status := 201, body := [1, 2, 3],
       hdr := [("Vary", ["Accept-Encoding"]), ("Content-Type", ["text/html"]), ("Content-Encoding", ["gzip"])] } := by decide
-example : ∃ h c, decision toyCfg (hadd [] hVary hAcceptEncoding) script1 = some (h, c) ∧
-    toyCfg.comp.decode (serve toyCfg false reqGzip [] [] script1).obs.body = some (writesOf script1).flatten :=
-  let ⟨h, c, hd, _, _, _, _, hdec⟩ := when_compressed toyCfg toy_roundtrip false reqGzip [] [] script1 (by decide)
+example : ∃ h c, decision toyCfg false (hadd [] hVary hAcceptEncoding) script1 = some (h, c) ∧
+    toyCfg.comp.decode (serve toyCfg false true reqGzip [] [] script1).obs.body = some (writesOf script1).flatten :=
+  let ⟨h, c, hd, _, _, _, _, hdec⟩ := when_compressed toyCfg toy_roundtrip false true reqGzip [] [] script1 (by decide)
   ⟨h, c, hd, hdec⟩
 -- implicit write, sniffed type
-example : (serve toyCfg false reqGzip [] [] [.w [60], .w [62]]).compressed = true := by decide
+example : (serve toyCfg false true reqGzip [] [] [.w [60], .w [62]]).compressed = true := by decide
 -- not compressed: zero weight, HEAD, 304, already encoded, other type, nothing written
-example : (serve toyCfg false [("Accept-Encoding", ["gzip;q=0"])] [] [] script1).compressed = false := by decide
-example : (serve toyCfg true reqGzip [] [] script1).compressed = false := by decide
-example : (serve toyCfg false reqGzip [] [] [.set "Content-Type" "text/html", .wh 304]).compressed = false := by decide
-example : (serve toyCfg false reqGzip [] [] (.set "content-encoding" "br" :: script1)).compressed = false := by decide
-example : (serve toyCfg false reqGzip [] [] [.set "Content-Type" "image/png", .w [1]]).compressed = false := by decide
-example : (serve toyCfg false reqGzip [] [] [.set "Content-Type" "text/html"]).compressed = false := by decide
-example : (serve toyCfg false reqGzip [] [] [.set "Content-Type" "image/png", .wh 404, .w [1], .w [2]]).obs =
-    serveBare toyCfg [] [.set "Content-Type" "image/png", .wh 404, .w [1], .w [2]] := by decide
+example : (serve toyCfg false true [("Accept-Encoding", ["gzip;q=0"])] [] [] script1).compressed = false := by decide
+example : (serve toyCfg true true reqGzip [] [] script1).compressed = false := by decide
+example : (serve toyCfg false true reqGzip [] [] [.set "Content-Type" "text/html", .wh 304]).compressed = false := by decide
+example : (serve toyCfg false true reqGzip [] [] (.set "content-encoding" "br" :: script1)).compressed = false := by decide
+example : (serve toyCfg false true reqGzip [] [] [.set "Content-Type" "image/png", .w [1]]).compressed = false := by decide
+example : (serve toyCfg false true reqGzip [] [] [.set "Content-Type" "text/html"]).compressed = false := by decide
+example : (serve toyCfg false true reqGzip [] [] [.set "Content-Type" "image/png", .wh 404, .w [1], .w [2]]).obs =
+    serveBare toyCfg false [] [.set "Content-Type" "image/png", .wh 404, .w [1], .w [2]] := by decide
+-- flush first, flush between, flush last: same response as without; 103 first: decided at the final status
+example : (serve toyCfg false true reqGzip [] [] [.set "Content-Type" "text/html", .fl, .w [1], .fl, .w [2], .fl]).obs =
+    (serve toyCfg false true reqGzip [] [] [.set "Content-Type" "text/html", .w [1], .w [2]]).obs := by decide
+example : (serve toyCfg false true reqGzip [] [] [.wh 103, .set "Content-Type" "text/html", .wh 404, .w [1]]).compressed = true ∧
+    (serve toyCfg false true reqGzip [] [] [.wh 103, .set "Content-Type" "text/html", .wh 404, .w [1]]).obs.status = 404 := by decide
+-- without the gzip writer in between the flush is real: it commits status 200 before the handler's 404
+example : (serve toyCfg false true [] [] [] [.fl, .wh 404]).obs.status = 200 ∧
+          (serve toyCfg false false [] [] [] [.fl, .wh 404]).obs.status = 404 := by decide
 -- the pool: two handlers interleaved; the second Get reuses the writer the first one put back
 example : (prun {} [.get 1 0, .get 2 0, .put 1, .get 3 0, .put 2]).held = [(3, 0)] ∧
           (prun {} [.get 1 0, .get 2 0, .put 1, .get 3 0, .put 2]).pool = [1] := by decide
